@@ -200,7 +200,9 @@ class Evaluator:
             if env is None:
                 return T.raise_('TypeError'), facts
             return self.summaries[key](self, fi, env, facts)
-        if self._stack.count(key) >= 12:
+        # recursion: representation methods recurse along a finite parent chain (bounded by the term); any other
+        # recursive function is followed three levels deep and is then unknown (UNDECIDED where it matters)
+        if self._stack.count(key) >= (12 if key.endswith(('__repr__', '__str__')) else 3):
             return T.opaque('recursion in %s' % key), facts
         env = self._bind(fi, args, kwargs, facts, depth)
         if env is None:
@@ -355,7 +357,15 @@ class Evaluator:
             if isinstance(e, ast.Call):
                 e = e.func
             name = ast.unparse(e).split('.')[-1]
-            # evaluate arguments for effects/notes only
+            # `raise make_error(...)`: the exception type is whatever the package helper builds
+            if isinstance(st.exc, ast.Call) and not name[:1].isupper():
+                try:
+                    v = self.expr(st.exc, fr)
+                except NameErrorSignal:
+                    raise
+                for leaf in _leaves_of(v):
+                    if T.is_op(leaf, 'EXC') and T.is_const(leaf[2]):
+                        name = leaf[2][1]
         return T.raise_(name)
 
     def st_Assert(self, st, fr):
@@ -434,19 +444,62 @@ class Evaluator:
 
     def st_If(self, st, fr):
         c = self.decide(T.truth(self.expr(st.test, fr)), fr)
+        return self._if(c, st.body, st.orelse, fr)
+
+    def _refine(self, fr, cond):
+        """Inside a branch, variables whose value is a Phi on (part of) the branch condition take the matching alternative."""
+        known = set(_split_and(cond))
+        for k_, v_ in list(fr.env.items()):
+            if T.tag(v_) == 'phi':
+                nv = T.assume(v_, known)
+                if nv is not v_:
+                    fr.env[k_] = nv
+
+    def _if(self, c, body, orelse, fr, _depth=0):
         if T.tag(c) == 'raise':
             return c
         if c == T.TRUE:
-            return self.block(st.body, fr)
+            return self.block(body, fr)
         if c == T.FALSE:
-            return self.block(st.orelse, fr)
+            return self.block(orelse, fr)
+        if T.tag(c) == 'phi' and _depth < 24:
+            # a condition that is itself a decision tree: branch on its root condition first
+            c1 = c[1]
+            env0, facts0, heap0 = dict(fr.env), fr.facts, dict(self.heap)
+            fr.facts = facts0.add(c1)
+            self._refine(fr, c1)
+            r1 = self._if(self.decide(T.assume(c[2], set(_split_and(c1))), fr), body, orelse, fr, _depth + 1)
+            env1, facts1, heap1 = fr.env, fr.facts, self.heap
+            nc1 = T.not_(c1)
+            fr.env, fr.facts, self.heap = dict(env0), facts0.add(nc1), dict(heap0)
+            self._refine(fr, nc1)
+            r2 = self._if(self.decide(T.assume(c[3], set(_split_and(nc1))), fr), body, orelse, fr, _depth + 1)
+            env2, facts2, heap2 = fr.env, fr.facts, self.heap
+            f1 = r1 is FALL or _has_fall(r1)
+            f2 = r2 is FALL or _has_fall(r2)
+            if f1 and f2:
+                fr.env = _merge_env(c1, env1, env2)
+                fr.facts = facts1.meet(facts2)
+                self.heap = _merge_heap(c1, heap1, heap2)
+            elif f1:
+                fr.env, fr.facts, self.heap = env1, facts1, heap1
+            elif f2:
+                fr.env, fr.facts, self.heap = env2, facts2, heap2
+            else:
+                fr.env, fr.facts, self.heap = env1, facts1.meet(facts2), heap1
+            if r1 is FALL and r2 is FALL:
+                return FALL
+            return T.phi(c1, r1, r2)
+        st = ast.If(test=ast.Constant(value=True), body=body, orelse=orelse)
         env0, facts0 = dict(fr.env), fr.facts
         heap0 = dict(self.heap)
         fr.facts = facts0.add(c)
-        r1 = self.block(st.body, fr)
+        self._refine(fr, c)
+        r1 = self.block(body, fr)
         env1, facts1, heap1 = fr.env, fr.facts, self.heap
         fr.env, fr.facts, self.heap = dict(env0), facts0.add(T.not_(c)), dict(heap0)
-        r2 = self.block(st.orelse, fr)
+        self._refine(fr, T.not_(c))
+        r2 = self.block(orelse, fr)
         env2, facts2, heap2 = fr.env, fr.facts, self.heap
         f1 = r1 is FALL or _has_fall(r1)
         f2 = r2 is FALL or _has_fall(r2)
@@ -551,9 +604,10 @@ class Evaluator:
         seq = _fixed_items(it)
         if seq is not None and len(seq) <= UNROLL_BOUND and not st.orelse:
             acc = FALL
+            body_ = _eliminate_continue(st.body)
             for item in seq:
                 self.assign(st.target, item, fr)
-                r = self._loop_body(st.body, fr)
+                r = self._loop_body(body_, fr)
                 if r == 'break':
                     break
                 if r == 'continue' or r is FALL:
@@ -589,10 +643,15 @@ class Evaluator:
         acc = last.value.func.value.id
         if fr.env.get(acc) != T.lst([]):
             return False
-        for s_ in body[:-1]:
-            if not (isinstance(s_, ast.Assign) and len(s_.targets) == 1 and isinstance(s_.targets[0], ast.Name)):
-                return False
-        temps = {s_.targets[0].id for s_ in body[:-1]}
+        def simple(s_):
+            if isinstance(s_, ast.Assign):
+                return all(isinstance(t_, ast.Name) for t_ in s_.targets)
+            if isinstance(s_, ast.If):
+                return all(simple(x) for x in s_.body + s_.orelse)
+            return isinstance(s_, ast.Pass)
+        if not all(simple(s_) for s_ in body[:-1]):
+            return False
+        temps = {n.id for s_ in body[:-1] for n in ast.walk(s_) if isinstance(n, ast.Name) and isinstance(n.ctx, ast.Store)}
         if acc in temps:
             return False
         saved = dict(fr.env)
@@ -603,12 +662,19 @@ class Evaluator:
             var = T.sym('each%d' % depth_, **_elem_meta(it))
             src, elem = it, var
         self.assign(st.target, elem, fr)
+        guard = FALL
         for s_ in body[:-1]:
             r = self.stmt(s_, fr)
             if r is not FALL:
-                fr.env = saved
-                return False
+                # an element whose computation raises is not produced (the raise stays inside the MAP body,
+                # exactly as for a comprehension)
+                if not _has_fall(r) or any(T.tag(x) != 'raise' and x is not FALL and x != FALL for x in _leaves_of(r)):
+                    fr.env = saved
+                    return False
+                guard = r if guard is FALL else _replace_fall(guard, r)
         val = self.expr(last.value.args[0], fr)
+        if guard is not FALL:
+            val = _replace_fall(guard, val)
         for k in list(fr.env):
             if k not in saved:
                 del fr.env[k]
@@ -1380,6 +1446,18 @@ class Evaluator:
         for a in list(args) + list(kwargs.values()):
             if T.tag(a) == 'raise':
                 return a
+        if name in X.MUTATOR_NAMES:
+            # a mutating call happens once, on the alternatives of its arguments that did not raise
+            guards = [a for a in list(args) + list(kwargs.values()) if T.tag(a) == 'phi' and _has_raise(a)]
+            if guards:
+                a2 = [_strip_raise(a) for a in args]
+                k2 = {k_: _strip_raise(v_) for k_, v_ in kwargs.items()}
+                res = X.method_call(self, recv, name, a2, k2, fr, e)
+                out = res
+                for g in guards:
+                    out = _map_leaves(_raise_split(g), lambda x, out=out: x if T.tag(x) == 'raise' else out)
+                return out
+            return X.method_call(self, recv, name, args, kwargs, fr, e)
         lifted = self._lift(args, kwargs, lambda a2, k2: X.method_call(self, recv, name, a2, k2, fr, e))
         if lifted is not None:
             return lifted
@@ -1439,6 +1517,16 @@ class Evaluator:
             return v
         if k == 'ext':
             return X.ext_call(self, callee[1], args, kwargs, fr, node)
+        if T.is_op(callee, 'NTCLS'):
+            fields = callee[3]
+            vals = {}
+            for nm, a in zip(fields, args):
+                vals[nm] = a
+            for kq, a in kwargs.items():
+                vals[kq] = a
+            if set(vals) != set(fields):
+                return T.raise_('TypeError')
+            return T.obj('namedtuple:' + callee[2], vals)
         if k == 'sym' and T.sym_meta(callee, 'callable'):
             return T.raw_op('APPLY', callee, *args)
         return T.opaque('call of non-callable %s' % T.show(callee, maxdepth=2))
@@ -1519,8 +1607,48 @@ def _walk_phi_any(t, pred):
     return False
 
 
+def _ends_with_continue(stmts):
+    return bool(stmts) and isinstance(stmts[-1], ast.Continue)
+
+
+def _eliminate_continue(stmts):
+    """Rewrite `if c: ...; continue` followed by more statements into `if c: ... else: <rest>` (structured form),
+    so that the branch that ends the iteration early keeps its assignments at the join."""
+    out = []
+    for i, s_ in enumerate(stmts):
+        if isinstance(s_, ast.Continue):
+            return out
+        if isinstance(s_, ast.If):
+            body, orelse = _eliminate_continue(s_.body), _eliminate_continue(s_.orelse)
+            rest = _eliminate_continue(stmts[i + 1:])
+            if _ends_with_continue(s_.body) and not _contains_break_continue(ast.Module(body=orelse + rest, type_ignores=[])):
+                new = ast.If(test=s_.test, body=body or [ast.Pass()], orelse=orelse + rest)
+                out.append(ast.copy_location(new, s_))
+                return out
+            if _ends_with_continue(s_.orelse) and not _contains_break_continue(ast.Module(body=body + rest, type_ignores=[])):
+                new = ast.If(test=s_.test, body=body + rest or [ast.Pass()], orelse=orelse or [ast.Pass()])
+                out.append(ast.copy_location(new, s_))
+                return out
+        out.append(s_)
+    return out
+
+
 def _has_fall(t):
     return _walk_phi_any(t, lambda x: x is FALL or x == FALL)
+
+
+def _leaves_of(t):
+    out, stack, seen = [], [t], set()
+    while stack:
+        x = stack.pop()
+        if x is not FALL and T.tag(x) == 'phi':
+            if id(x) in seen:
+                continue
+            seen.add(id(x))
+            stack.extend([x[2], x[3]])
+        else:
+            out.append(x)
+    return out
 
 
 def _has_raise(t):
